@@ -46,6 +46,7 @@ registry! {
     c18::C18,
     c19::C19,
     c20::C20,
+    c21::C21,
     c22::C22,
     c23::C23,
     c24::C24,
